@@ -630,6 +630,9 @@ func (e *Exec) lookupGlobal(name string) *ssa.Global {
 // frameCheck: a write to pre-existing memory must be covered by the assigns
 // clause of the function under verification.
 func (e *Exec) frameCheck(st *State, l *Loc, cond *smt.Term, what string, pos token.Pos) {
+	if e.dry == 0 {
+		e.FrameSites++
+	}
 	if !l.Obj.Pre || l.Obj.Fresh {
 		return
 	}
